@@ -184,6 +184,14 @@ pub fn r_sync_response(b: &[u8]) -> R {
 pub fn r_server_keys_response(b: &[u8]) -> R {
     response::<ruma_federation_api::discovery::get_server_keys::v2::Response>(b)
 }
+/// Federation media download: a `multipart/mixed` body parsed by ruma itself.
+pub fn r_fed_media_content(b: &[u8]) -> R {
+    response::<ruma_federation_api::authenticated_media::get_content::v1::Response>(b)
+}
+pub fn r_fed_media_thumbnail(b: &[u8]) -> R {
+    response::<ruma_federation_api::authenticated_media::get_content_thumbnail::v1::Response>(b)
+}
+
 pub fn r_get_content_response(b: &[u8]) -> R {
     response::<ruma_client_api::authenticated_media::get_content::v1::Response>(b)
 }
